@@ -995,6 +995,13 @@ def run_shared_uuid(case):
         variants["listed_twice_matched_once"] = ([data.Match(uuid=_U("su:m0"), source=p, target=a, affinity=0.5)], [])
         variants["listed_twice_matched_twice"] = ([data.Match(uuid=_U("su:m0"), source=p, target=a, affinity=0.5),
                                                    data.Match(uuid=_U("su:m1"), target=a, affinity=0.0)], ["duplicate"])
+    if case["variant"].startswith("same_sound_event"):
+        # two annotations (two annotators, two uuids) of the SAME sound event object: two annotated entries, each to be mentioned once
+        a3 = data.SoundEventAnnotation(uuid=_U("su:Z"), sound_event=a.sound_event, created_on=DT)
+        ca = data.ClipAnnotation(uuid=_U("su:CA"), clip=clip, sound_events=[a, a3])
+        variants["same_sound_event_both_matched"] = ([data.Match(uuid=_U("su:m0"), source=p, target=a, affinity=0.5),
+                                                      data.Match(uuid=_U("su:m1"), target=a3, affinity=0.0)], [])
+        variants["same_sound_event_one_matched"] = ([data.Match(uuid=_U("su:m0"), source=p, target=a, affinity=0.5)], ["missing"])
     matches, reasons = variants[case["variant"]]
     P = Paths(out, "clip_evaluation", reasons, {"shared_uuid": True})
     obs, obj = observe(lambda: data.ClipEvaluation(uuid=_U("su:ce"), annotations=ca, predictions=cp, matches=matches))
@@ -1011,7 +1018,8 @@ def run_shared_uuid(case):
     return out
 
 
-SHARED_UUID_VARIANTS = ["paired", "paired_snapshot", "both_unmatched", "only_target", "only_source", "foreign_pair", "target_twice", "listed_twice_matched_once", "listed_twice_matched_twice"]
+SHARED_UUID_VARIANTS = ["paired", "paired_snapshot", "both_unmatched", "only_target", "only_source", "foreign_pair", "target_twice", "listed_twice_matched_once", "listed_twice_matched_twice",
+                        "same_sound_event_both_matched", "same_sound_event_one_matched"]
 
 
 def default_sites():
